@@ -3,9 +3,9 @@ import ast
 import inspect
 
 from . import smt
-from .terms import (And, Or, Not, Implies, Ite, Eq, asV, asB, asI, asS, mkB, mkI, mkS, TRUE, FALSE,
+from .terms import (mseq, And, Or, Not, Implies, Ite, Eq, asV, asB, asI, asS, mkB, mkI, mkS, TRUE, FALSE,
                     const_term, seq_of_terms, KIND_OF_PY)
-from .values import (Val, PyC, PyList, SymObj, SDict, Closure, BM, Exc, OutOfSubset, fresh_name, ClassTable)
+from .values import (CondList, Val, PyC, PyList, SymObj, SDict, Closure, BM, Exc, OutOfSubset, fresh_name, ClassTable)
 
 
 def split_and(t):
@@ -191,8 +191,8 @@ class CoreMixin:
         r.fresh = TRUE
         st.assume(Eq(r.t, f"(v_list {t})"), fact=True)
         x = fresh_name("x")
-        alts = [f"(ismem {p} {x})" if k == "seq" else f"(= {x} {p})" for k, p in parts]
-        st.assume(f"(forall (({x} V)) (! (= (ismem (seqof {r.t}) {x}) (or false {' '.join(alts)})) :pattern ((ismem (seqof {r.t}) {x}))))", fact=True)
+        alts = [f"(ismem {mseq(p)} {x})" if k == "seq" else f"(= {x} {p})" for k, p in parts]
+        st.assume(f"(forall (({x} V)) (! (= (ismem (lseq {r.t}) {x}) (or false {' '.join(alts)})) :pattern ((ismem (lseq {r.t}) {x}))))", fact=True)
         return r
 
     # ---- attributes of objects allocated in this activation live in the state (path-local)
@@ -225,9 +225,29 @@ class CoreMixin:
             return self.escape(v)
         if isinstance(v, SDict):
             return self.lift_sdict(v)
+        if isinstance(v, CondList):
+            return self.lift_condlist(v)
         if isinstance(v, Exc):
             return self.lift(v.val) if v.val is not None else Val("v_none")
         raise OutOfSubset(f"cannot lift {type(v).__name__} into an SMT value")
+
+    def lift_condlist(self, cl):
+        """A conditional-append list becomes a named list constant: its defining equation plus the identity-membership facts
+        that follow from it (IS-MEM: concat, unit, empty): x is a member iff it is one of the entries whose condition holds."""
+        if cl.term is None:
+            r = self.declare(fresh_name("clist"))
+            cl.term = r
+            vals = [asV(self.lift(x)) for _, x in cl.entries]
+            segs = [f"(seq.unit {t})" if c == TRUE else f"(ite {c} (seq.unit {t}) (as seq.empty (Seq V)))" for (c, _), t in zip(cl.entries, vals)]
+            body = "(as seq.empty (Seq V))" if not segs else segs[0] if len(segs) == 1 else "(seq.++ " + " ".join(segs) + ")"
+            x = fresh_name("x")
+            alts = [And(c, Eq(x, t)) for (c, _), t in zip(cl.entries, vals)]
+            facts = [Eq(r, f"(v_list {body})"),
+                     f"(forall (({x} V)) (! (= (ismem (lseq {r}) {x}) {Or(*alts)}) :pattern ((ismem (lseq {r}) {x}))))"]
+            for (c, _), t in zip(cl.entries, vals):
+                facts.append(Implies(c, f"(ismem (lseq {r}) {t})"))
+            self.escape_facts.extend(facts)
+        return Val(cl.term, kind="list", fresh=TRUE)
 
     def lift_sdict(self, d):
         """A dict with statically known keys becomes a fresh dict constant defined by per-key facts."""
@@ -323,6 +343,8 @@ class CoreMixin:
         if isinstance(base, Exc):
             return self.spec_getattr(base.val, name)
         base = self.lift(base)
+        if name == "__name__" and base.kind == "cls":
+            return Val(f"({self.declare_fun('cls_name', ['Int'], 'String')} (cid {asV(base)}))", "S")
         if base.cls is not None:
             cv = self.class_attr(base.cls, name)
             if cv is not None and name not in self.instance_attrs(base.cls):
